@@ -50,12 +50,13 @@ class AbsD:
 
 
 class SchemaD:
-    def __init__(self, children=(), types=(), keytype=None, datatype=None, handler=None):
+    def __init__(self, children=(), types=(), keytype=None, datatype=None, handler=None, imports=()):
         self.children = list(children)
         self.types = list(types)
         self.keytype = keytype
         self.datatype = datatype
         self.handler = handler
+        self.imports = list(imports)     # component packages imported at schema level: <import package=…/> after the own types
 
 
 # ------------------------------------------------------------------ XML
@@ -99,6 +100,8 @@ def render_xml(s, toplevel="schema", prefix=None):
             for c in t.children:
                 _render_child(c, out, "    ")
             out.append("  </sectiontype>")
+    for p in getattr(s, "imports", ()):
+        out.append("  <import package=%s/>" % quoteattr(p))
     for c in s.children:
         _render_child(c, out, "  ")
     out.append("</%s>" % toplevel)
